@@ -764,8 +764,21 @@ func c02R4(c *Check, R *Roles) {
 			if !hasVal {
 				okShape = false
 			}
+			// the bare value is returned only when no preamble is configured: a result without the preamble under any other
+			// condition (the token "already carries it") forwards something else than preamble + bound token
+			for _, alt := range phiAlternatives(callee, r.Results[0], r) {
+				hasPre := false
+				for _, l := range Leaves(alt.V, leafOpts{}) {
+					if l == callee.Params[0] {
+						hasPre = true
+					}
+				}
+				if !hasPre && !unionFacts(FactsOf(callee).At(r), alt.Facts).StrEmpty(callee.Params[0]) {
+					okShape = false
+				}
+			}
 		}
-		c.Obl(okShape, "C02.R4", "encoder/value-helper/"+fnKey(callee), P.Pos(callee.Pos()), "value helper returns [preamble + \" \" +] value", "the header value helper returns something other than [preamble + \" \" +] value")
+		c.Obl(okShape, "C02.R4", "encoder/value-helper/"+fnKey(callee), P.Pos(callee.Pos()), "value helper returns preamble + \" \" + value, or the bare value exactly when the preamble is empty", "the header value helper returns something other than preamble + \" \" + value (the bare value only for an empty preamble)")
 		break
 	}
 }
